@@ -75,8 +75,19 @@ def lam(rank: int, body_fn) -> str:
     return f"(fun {' '.join(names)} => {body})"
 
 
+NUMTYPE = ["Rat"]      # switched to "ℝ" while real-valued kernels are generated
+
+
 def lit(value) -> str:
-    """Exact Lean rational literal for a python int / float *decimal literal*."""
+    """Exact Lean literal for a python int / float *decimal literal* (in the current numeric type)."""
+    if NUMTYPE[0] != "Rat":
+        T = NUMTYPE[0]
+        if isinstance(value, bool):
+            raise ValueError("bool literal")
+        fr_ = Fraction(repr(value)) if not isinstance(value, int) else Fraction(value)
+        if fr_.denominator == 1:
+            return f"({fr_.numerator} : {T})" if fr_ >= 0 else f"(-{-fr_.numerator} : {T})"
+        return f"(({fr_.numerator} : {T}) / {fr_.denominator})"
     if isinstance(value, bool):
         raise ValueError("bool literal")
     if isinstance(value, int):
@@ -283,6 +294,13 @@ class SymEx:
         if fn == "np.sqrt":
             x = self.need_sym(node.args[0])
             return Sym.of(x.rank, lambda *ix: f"(sqrtF {x.app(*ix)})")
+        REALFN = {"np.cos": "Real.cos", "np.sin": "Real.sin", "np.arcsin": "Real.arcsin", "np.arccos": "Real.arccos"}
+        if fn in REALFN and len(node.args) == 1 and NUMTYPE[0] != "Rat":
+            x = self.need_sym(node.args[0])
+            return Sym.of(x.rank, lambda *ix: f"({REALFN[fn]} {x.app(*ix)})").fresh()
+        if fn == "np.sqrt" and NUMTYPE[0] != "Rat":
+            x = self.need_sym(node.args[0])
+            return Sym.of(x.rank, lambda *ix: f"(Real.sqrt {x.app(*ix)})").fresh()
         if fn == "np.deg2rad" and len(node.args) == 1:
             x = self.need_sym(node.args[0])
             return Sym.of(x.rank, lambda *ix: f"({x.app(*ix)} * degToRad)").fresh()
